@@ -366,6 +366,8 @@ def gen_paths(ctx):
         area = rand_area(r, w, h, crs=r.choice([0, 1, 2, 3]))
         chunks = [r.randint(1, 5), [r.randint(1, 5), r.randint(1, 5)], [compositions(r, h), compositions(r, w)]]
         hist = [[rand_ds(r, h, w, plain_ok=True), r.randint(0, 1)] for _ in range(r.randint(3, 6))]
+        # every history contains a windowed call followed by a full call and a caching full call followed by a windowed one
+        hist = [[[rand_window(r, h), rand_window(r, w)], i % 2], [None, 1], [[rand_window(r, h), rand_window(r, w)], 0], [None, 0]] + hist
         ap.append({"area": area, "chunks": chunks, "dask_slice": [rand_window(r, h), rand_window(r, w)], "history": hist,
                    "plain": [[rand_window(r, h)]], "nprocs": 2 if i < ctx.n(2, 6) else 0})
     for i in range(ctx.n(30, 200)):
@@ -380,7 +382,10 @@ def gen_paths(ctx):
         total = sum(heights)
         chunks = [r.randint(1, 4), [r.randint(1, 4), r.randint(1, 4)], [heights, compositions(r, w)],
                   [compositions(r, total), compositions(r, w)]]
-        hist = []
+        # every history starts with a windowed stack call followed by a full one (a stale window must not be served) and a
+        # full call followed by a windowed one
+        hist = [["stack", [rand_window(r, total), rand_window(r, w)], i % 2], ["stack", None, (i // 2) % 2],
+                ["stack", [rand_window(r, total), [None, None]], 0]]
         for _ in range(r.randint(3, 6)):
             if r.random() < 0.6:
                 ds = rand_ds(r, total, w)
